@@ -298,6 +298,8 @@ pub fn c04(a: &Args) -> CaseSet {
             (Some(true), String::new())
         });
     }
+    // derived expressions: neutral elements that still carry names (C10's family; here for the variable lists and arities)
+    { let ftb = float_table(); add_named_neutral(&mut cs, &ftb); }
     cs
 }
 
@@ -915,6 +917,62 @@ pub fn c09(a: &Args) -> CaseSet {
 }
 
 /// C10 (second half): the arithmetic operators on deep expressions with their neutral-element shortcuts
+/// neutral elements that carry variable names (x*0 is the literal zero over [x], z^0 the literal one over [z]) as operands of
+/// every overloaded operator, on either side: the result must list the sorted union, reject wrong arities and keep the value
+fn add_named_neutral(cs: &mut CaseSet, tb: &Vec<OpSpec>) {
+
+        set_table(&tb);
+        use exmex::Express;
+        let leaf = |t: &str| -> (Prog, Term, Vec<String>) {
+            let f = FE::parse_wo_compile(Box::leak(t.to_string().into_boxed_str())).unwrap();
+            let vars: Vec<String> = f.var_names().to_vec();
+            let term = f.eval(&symvals(vars.len())).unwrap();
+            (Prog::Deep(t.to_string()), term, vars)
+        };
+        let comb = |k: usize, a: &(Prog, Term, Vec<String>), b: &(Prog, Term, Vec<String>)| -> (Prog, Term, Vec<String>) {
+            let mut vars: Vec<String> = a.2.iter().chain(b.2.iter()).cloned().collect(); vars.sort(); vars.dedup();
+            fn go(t: &Term, from: &[String], to: &[String]) -> Term { match t { Term::Var(i) => Term::Var(to.iter().position(|v| *v == from[*i]).unwrap()), Term::Un(k, a) => Term::Un(*k, Box::new(go(a, from, to))), Term::Bin(k, a, b) => Term::Bin(*k, Box::new(go(a, from, to)), Box::new(go(b, from, to))), x => x.clone() } }
+            let name = ["+", "-", "*", "/", "^"][k];
+            (Prog::Arith(k, Box::new(a.0.clone()), Box::new(b.0.clone())), tbin(op_idx(&tb, name), go(&a.1, &a.2, &vars), go(&b.1, &b.2, &vars)), vars)
+        };
+        let neutrals: Vec<(Prog, Term, Vec<String>)> = vec![
+            comb(2, &leaf("x"), &leaf("0")), comb(2, &leaf("0"), &leaf("x*w")), comb(4, &leaf("z"), &leaf("0")), comb(3, &leaf("0"), &leaf("x+2")),
+            comb(2, &leaf("1"), &comb(4, &leaf("v"), &leaf("0"))),
+        ];
+        let others = ["y", "2*y", "y+x", "3", "sin(y)*u"];
+        for nt in &neutrals {
+            for o in others {
+                let ot = leaf(o);
+                for k in 0..5 {
+                    for (pa, pb) in [(nt, &ot), (&ot, nt)] {
+                        let (prog, want, vars) = comb(k, pa, pb);
+                        let nv = vars.len();
+                        let qs = vec![Query::Vars, Query::Eval(nv), Query::Eval(nv.saturating_sub(1)), Query::Eval(nv + 1)];
+                        let (tb2, vars2) = (tb.clone(), vars.clone());
+                        cs.add(&tb, prog, qs, "neutral element with names".to_string(), "shortcuts-named-neutral", 3, move |obs| {
+                            match (&obs[0], &obs[1]) {
+                                (Obs::E, _) => (None, "rejected (0^0)".into()),
+                                (Obs::S(v), Obs::T(got)) => {
+                                    if *v != vars2 { return (Some(false), format!("variables {v:?}, expected the sorted union {vars2:?}")) }
+                                    if vars2.len() > 0 && !matches!(obs[2], Obs::E) { return (Some(false), format!("evaluation with one value too few: {}", pretty_obs(&obs[2]))) }
+                                    if !matches!(obs[3], Obs::E) { return (Some(false), format!("evaluation with one value too many: {}", pretty_obs(&obs[3]))) }
+                                    for pt in points(vars2.len()) {
+                                        let w = interp(&want, &tb2, &pt);
+                                        if !all_finite(&want, &tb2, &pt) { continue }
+                                        let g = interp(got, &tb2, &pt);
+                                        if !(g == w || (g - w).abs() <= 1e-9 * (1.0 + w.abs())) { return (Some(false), format!("value {g} vs unsimplified {w} at {pt:?}")) }
+                                    }
+                                    (Some(true), String::new())
+                                }
+                                _ => (Some(false), format!("{} / {}", pretty_obs(&obs[0]), pretty_obs(&obs[1]))),
+                            }
+                        });
+                    }
+                }
+            }
+        }
+    
+}
 pub fn c10s(a: &Args) -> CaseSet {
     let mut cs = CaseSet::default();
     let mut r = Rng::new(a.seed ^ 0x1010);
@@ -969,6 +1027,7 @@ pub fn c10s(a: &Args) -> CaseSet {
             }
         });
     }
+    add_named_neutral(&mut cs, &tb);
     cs
 }
 /// every intermediate value of the term is finite and no power has base zero with a non-positive exponent
